@@ -467,6 +467,38 @@ def random_file_trace(seed, tid, workdir, max_recs, trunc=True):
 
 
 # --------------------------------------------------------------------------- worker plumbing
+def shipped_trace(tid, path, workdir, dense):
+    """byte-level truncation of a shipped .gro file: every proper prefix if dense, else every 61st byte plus the
+    200 bytes around the start of the box line and the last 300 bytes"""
+    with open(path, 'rb') as fh:
+        data = fh.read()
+    full = _read_back(path)
+    lines = data.split(b'\n')
+    body = data[:-1] if data.endswith(b'\n') else data
+    box_start = body.rfind(b'\n') + 1
+    ks = range(len(data)) if dense else sorted(set(list(range(0, len(data), 61)) + list(range(max(0, box_start - 200), min(len(data), box_start + 100)))
+                                                   + list(range(max(0, len(data) - 300), len(data)))))
+    p = os.path.join(workdir, 'ship.gro')
+    min_acc, exact = -1, True
+    for k in ks:
+        with open(p, 'wb') as fh:
+            fh.write(data[:k])
+        rd = _read_back(p)
+        if rd['ok']:
+            if min_acc < 0:
+                min_acc = k
+            if rd['recs'] != full.get('recs'):
+                exact = False
+    try:
+        declared = int(lines[1])
+    except Exception:
+        declared = -1
+    ev = [{'op': 'shipped', 'read_ok': bool(full['ok']), 'natoms': full.get('natoms', -1), 'nrecs': len(full.get('recs', [])),
+           'declared': declared, 'min_accepted': min_acc, 'accepted_exact': bool(exact), 'box_start': box_start, 'trunc': True,
+           'prefixes': len(ks)}]
+    return {'tid': tid, 'kind': 'shipped', 'meta': {'file': os.path.basename(path), 'bytes': len(data), 'dense': dense}, 'ev': ev}
+
+
 def _work(args):
     kind, items, part_path, workroot = args
     common.import_repo()
@@ -474,7 +506,10 @@ def _work(args):
     os.makedirs(workdir, exist_ok=True)
     with open(part_path, 'w') as out:
         for it in items:
-            if kind == 'hist':
+            if kind == 'ship':
+                tid, path, dense = it
+                tr = shipped_trace(tid, path, workdir, dense)
+            elif kind == 'hist':
                 tid, hist, trunc = it
                 tr = run_history(hist, workdir, tid, trunc)
             else:
@@ -630,6 +665,17 @@ def check(run, props):
         subr = rand_items[p::nproc]
         if subr:
             jobs.append(('rand', subr, os.path.join(scratch, 'tr_r%d.ndjson' % p), workroot))
+    if 'C14' in props:
+        # the shipped coordinate files, truncated at every byte (large ones: densely sampled)
+        import glob
+        ship = sorted(glob.glob(os.path.join(os.path.dirname(gm.__file__), 'data', '*.gro')), key=os.path.getsize)
+        if run.quick:
+            ship = ship[:5]
+        for j, path in enumerate(ship):
+            size = os.path.getsize(path)
+            jobs.append(('ship', [(5 * 10 ** 6 + j, path, size <= (4000 if run.quick else 60000))],
+                         os.path.join(scratch, 'tr_s%d.ndjson' % j), workroot))
+        run.extra['shipped_files_truncated'] = [os.path.basename(x) for x in ship]
     with Pool(nproc) as pool:
         parts = pool.map(_work, jobs)
     traces = {}
@@ -648,7 +694,7 @@ def check(run, props):
             v = ('FAIL', tid, 1, 'writer_accepts_valid_input')
         if v is None:
             raise tlc.TLCError('no verdict for trace %r' % tid)
-        key = ('h', json.dumps(tr['ev'][:1], sort_keys=True)[:80], tid) if tr['kind'] == 'exact' else ('r', tid)
+        key = ('h', json.dumps(tr['ev'][:1], sort_keys=True)[:80], tid) if tr['kind'] == 'exact' else ('r', tid, tr['kind'])
         sample = None
         if len(run.samples) < 4:
             sample = {'kind': tr['kind'], 'ops': [e['op'] for e in tr['ev']][:12], 'meta': tr.get('meta')}
